@@ -146,7 +146,7 @@ def bounded_order(rep, tier, seed):
     for d in dates:
         e = venv.Env(d)
         year = int(d[:4])
-        pops = [popgen.population(k, year=year, seed=seed) for k in (["patchwork"], ["single_parent", "couple"], ["family", "three_gen", "adult_child"], ["married", "pensioners", "single"])]
+        pops = [popgen.population(k, year=year, seed=seed) for k in (["patchwork"], ["single_parent", "couple"], ["working_children", "single"], ["family", "three_gen", "adult_child"], ["married", "pensioners", "single"])]
         for pi, pop in enumerate(pops):
             nodes = apirel.function_nodes(e, None, list(pop.columns))
             base, _ = apirel.simulate(e, pop, targets=nodes)
@@ -183,7 +183,7 @@ def bounded_order(rep, tier, seed):
                     diff.append("p_id (debug output not in input order)")
                 if diff:
                     bad.append({"what": f"{d}: population {pi} ({list(pop['p_id'])}) in row order {perm} ({variant}): columns {diff[:5]} differ from the permuted baseline", "date": d, "perm": list(perm), "population": pi, "columns": diff[:5]})
-    rep.bounded["row_order"] = {"evaluations": n_eval, "distinct_nontrivial": len(distinct), "rule": "per date: four populations (patchwork, single parent + couple, family + three generations + adult child, married + pensioners + single); ALL row permutations for <= 4 rows, seeded ones beyond; variants: plain / random index labels / float-typed int columns + labels + debug / reversed labels + debug; ALL ~320 nodes compared (floats at 1e-12 relative: the order of a floating-point group sum is not part of the contract, A1; derived ids as partitions); distinct = (date, population, permutation, variant)", "failures": [b["what"] for b in bad][:6]}
+    rep.bounded["row_order"] = {"evaluations": n_eval, "distinct_nontrivial": len(distinct), "rule": "per date: five populations (patchwork, single parent + couple, parent with two self-supporting children + single, family + three generations + adult child, married + pensioners + single); ALL row permutations for <= 4 rows, seeded ones beyond; variants: plain / random index labels / float-typed int columns + labels + debug / reversed labels + debug; ALL ~320 nodes compared (floats at 1e-12 relative: the order of a floating-point group sum is not part of the contract, A1; derived ids as partitions); distinct = (date, population, permutation, variant)", "failures": [b["what"] for b in bad][:6]}
     return bad, n_eval, len(distinct)
 
 
